@@ -393,12 +393,13 @@ def native_replay(h, test_src, timeout=600, fail_locs=None, strict=False):
     if strict:
         # refusal-style harness: panics inside /repo are the expected refusals; only the reported marker location counts
         for m in re.finditer(r"panicked at (\S+?):(\d+):\d+", out):
-            if (os.path.basename(m.group(1)), int(m.group(2))) in (fail_locs or set()):
+            if any(ff == os.path.basename(m.group(1)) and abs(ll - int(m.group(2))) <= 3 for ff, ll in (fail_locs or set())):
                 return True, out
         return False, out + "\n[strict replay: no panic at the reported marker location]"
     if reproduced and fail_locs is not None:
         for m in re.finditer(r"panicked at (\S+?):(\d+):\d+", out):
             f, ln = os.path.basename(m.group(1)), int(m.group(2))
-            if f == h.module + ".rs" and m.group(1).startswith("src/") and (f, ln) not in fail_locs:
+            # (a multi-line assert! is reported at different lines by Kani and by the native panic message: 3 lines of tolerance)
+            if f == h.module + ".rs" and m.group(1).startswith("src/") and not any(ff == f and abs(ll - ln) <= 3 for ff, ll in fail_locs):
                 return False, out + f"\n[native panic at {m.group(1)}:{ln} is a harness assertion the solver did not report: not counted as reproduced]"
     return reproduced, out
